@@ -565,15 +565,15 @@ Proof.
   - destruct Hfs as [[E _]|(pre & s & post & E1 & E2 & E3)]; [discriminate|]. cbn [Nat.add] in E2. subst idx.
     rewrite E1 in H. rewrite E1 in Hc. pose proof Hc as Hc'. apply chain_app in Hc'. destruct Hc' as [Hp1 Hp2].
     eapply write_reader_at_ok; [|exact Hrok|right; exact E3|rewrite <- E1; rewrite E1; exact H].
-    rewrite E1 in Hci0. constructor; auto; try lia.
+    rewrite E1 in Hci0. constructor; auto; try lia; try (rewrite E1; exact Hci0).
     right. cbn [chain] in Hp2. destruct Hp2 as [(A1 & _) _]. lia.
   - destruct Hfs as [_ Hall].
     assert (Hli0 : LI (final_off st) (max_recv st) (start_off st) (slots st) r (r_off r + r_len r) [] (slots st) r).
-    { constructor; auto; try lia; try exact I. cbn [endlo]. right; exact Hpos. }
+    { constructor; auto; try lia; try exact I. }
     destruct (alloc_step _ _ _ st eq_refl eq_refl _ _ _ [] (slots st) r Hli0 Hz) as (Hli1 & Ha1 & Ha2).
     { destruct (slots st) as [|nx t]; [exact I|]. inversion Hall; assumption. }
     destruct (try_write (allocate_slot st r) r) as [[[s1 r1] fo1] fl] eqn:Etw.
-    destruct (zip_step _ _ _ _ _ _ _ _ _ _ _ _ _ _ _ Hli1 Ha1 Etw) as (Hli2 & Hp2 & Hlen).
+    edestruct (zip_step (final_off st) (max_recv st) (start_off st) st eq_refl eq_refl) as (Hli2 & Hp2 & Hlen); [exact Hli1|exact Ha1|exact Etw|].
     cbn [app] in Hli2.
     destruct fo1 as [x|]; cbn [optl] in Hli2.
     + destruct (N.eqb_spec (r_len r1) 0) as [Hz1|Hz1].
